@@ -138,8 +138,10 @@ def mixed_dim_probe(ctx, rng, oracle_bad):
                                    with_units=wu, inputs=lab)
                         ctx.case(key=("mixdim", k, i, j, lab, by, wu), nontrivial=True, kind="transform/mixed-dimension", sample=rec)
                         try:
-                            if wu == "quantity-in":      # inputs as quantities in the units of the from-frame
-                                got = w.transform(fa, fb, *[np.asarray(v) * un for v, un in zip(args, fr[i].unit)])
+                            if wu == "quantity-in":      # inputs as quantities in the units of the from-frame or in another, convertible unit
+                                other = {"pix": "kpix", "arcsec": "deg", "mm": "m", "deg": "arcmin", "um": "nm"}
+                                got = w.transform(fa, fb, *[(np.asarray(v) * un).to(other[str(un)]) if (k + j) % 2 else np.asarray(v) * un
+                                                            for v, un in zip(args, fr[i].unit)])
                             else:
                                 got = w.transform(fa, fb, *args, with_units=wu)
                         except Exception as e:  # noqa
